@@ -287,8 +287,39 @@ func (e *Engine) registerVerifyIntrinsics() {
 		}
 		return Iface{}
 	}
+}
+
+// registerFmtIntrinsics: fmt.Sprintf / errors.Is models used by every configuration.
+func (e *Engine) registerFmtIntrinsics() {
+	in := e.intrinsics
+	// errors.Is: identity along the Unwrap chain (no Is methods, no multi-errors in the code under test)
 	in["errors.Is"] = func(r *Run, fr *frame, a []Value) Value {
-		return r.equal(nil, a[0], a[1])
+		cur := a[0].(Iface)
+		for i := 0; i < 16; i++ {
+			if cur.T == nil {
+				return BoolV{C: isNilValue(a[1])}
+			}
+			e := r.equal(nil, cur, a[1])
+			if e.S != nil {
+				panic(unsupported("errors.Is on symbolic error identity"))
+			}
+			if e.C {
+				return BoolV{C: true}
+			}
+			if _, host := cur.V.(hostObj); host {
+				return BoolV{C: false}
+			}
+			m := r.eng.prog.LookupMethod(cur.T, nil, "Unwrap")
+			if m == nil || m.Signature.Results().Len() != 1 {
+				return BoolV{C: false}
+			}
+			nx, ok := r.callFunc(fr, m, []Value{cur.V}, nil).(Iface)
+			if !ok {
+				return BoolV{C: false}
+			}
+			cur = nx
+		}
+		return BoolV{C: false}
 	}
 	in["fmt.Sprintf"] = func(r *Run, fr *frame, a []Value) Value {
 		f := a[0].(StrV).concrete()
